@@ -830,6 +830,31 @@ static void dump_raw_perf_event(struct uftrace_dump_ops *ops, struct uftrace_per
 }
 
 /* chrome support */
+void print_json_escaped_char(char **args, size_t *len, const char c);
+
+/*
+ * print @str as the body of a JSON string.  If @quoted, the string went through
+ * json_quote() already (info.cmdline): keep its \" as it is.
+ */
+static void pr_json_escaped(const char *str, bool quoted)
+{
+	char buf[8];
+
+	for (; *str; str++) {
+		char *p = buf;
+		size_t len = sizeof(buf);
+
+		if (quoted && str[0] == '\\' && str[1] == '"') {
+			pr_out("\\\"");
+			str++;
+			continue;
+		}
+		print_json_escaped_char(&p, &len, *str);
+		*p = '\0';
+		pr_out("%s", buf);
+	}
+}
+
 static void dump_chrome_header(struct uftrace_dump_ops *ops, struct uftrace_data *handle,
 			       struct uftrace_opts *opts)
 {
@@ -854,16 +879,18 @@ static void dump_chrome_header(struct uftrace_dump_ops *ops, struct uftrace_data
 
 		pr_out("{\"ts\":0,\"ph\":\"M\",\"pid\":%d,"
 		       "\"name\":\"process_name\","
-		       "\"args\":{\"name\":\"[%d] %s\"}},\n",
-		       tid, tid, task->comm);
+		       "\"args\":{\"name\":\"[%d] ",
+		       tid, tid);
+		pr_json_escaped(task->comm, false);
+		pr_out("\"}},\n");
 		pr_out("{\"ts\":0,\"ph\":\"M\",\"pid\":%d,"
 		       "\"name\":\"thread_name\","
-		       "\"args\":{\"name\":\"[%d] %s\"}}",
-		       tid, tid, task->comm);
+		       "\"args\":{\"name\":\"[%d] ",
+		       tid, tid);
+		pr_json_escaped(task->comm, false);
+		pr_out("\"}}");
 	}
 }
-
-void print_json_escaped_char(char **args, size_t *len, const char c);
 
 static void dump_chrome_task_rstack(struct uftrace_dump_ops *ops, struct uftrace_task_reader *task,
 				    char *name)
@@ -987,18 +1014,24 @@ static void dump_chrome_perf_event(struct uftrace_dump_ops *ops, struct uftrace_
 		if (is_process) {
 			pr_out(",\n{\"ts\":0,\"ph\":\"M\",\"pid\":%d,"
 			       "\"name\":\"process_name\","
-			       "\"args\":{\"name\":\"%s\"}}",
-			       perf->tid, perf->u.comm.comm);
+			       "\"args\":{\"name\":\"",
+			       perf->tid);
+			pr_json_escaped(perf->u.comm.comm, false);
+			pr_out("\"}}");
 			pr_out(",\n{\"ts\":0,\"ph\":\"M\",\"pid\":%d,"
 			       "\"name\":\"thread_name\","
-			       "\"args\":{\"name\":\"%s\"}}",
-			       perf->tid, perf->u.comm.comm);
+			       "\"args\":{\"name\":\"",
+			       perf->tid);
+			pr_json_escaped(perf->u.comm.comm, false);
+			pr_out("\"}}");
 		}
 		else {
 			pr_out(",\n{\"ts\":0,\"ph\":\"M\",\"pid\":%d,\"tid\":%d,"
 			       "\"name\":\"thread_name\","
-			       "\"args\":{\"name\":\"[%d] %s\"}}",
-			       perf->u.comm.pid, perf->tid, perf->tid, perf->u.comm.comm);
+			       "\"args\":{\"name\":\"[%d] ",
+			       perf->u.comm.pid, perf->tid, perf->tid);
+			pr_json_escaped(perf->u.comm.comm, false);
+			pr_out("\"}}");
 		}
 		break;
 	default:
@@ -1024,8 +1057,11 @@ static void dump_chrome_footer(struct uftrace_dump_ops *ops, struct uftrace_data
 	pr_out("\n], \"displayTimeUnit\": \"ns\", \"metadata\": {\n");
 	pr_out("\"version\":\"uftrace %s\",\n", UFTRACE_VERSION);
 	pr_out("\"recorded_time\":\"%s\",\n", buf);
-	if (handle->hdr.info_mask & CMDLINE)
-		pr_out("\"command_line\":\"%s\"\n", handle->info.cmdline);
+	if (handle->hdr.info_mask & CMDLINE) {
+		pr_out("\"command_line\":\"");
+		pr_json_escaped(handle->info.cmdline, true);
+		pr_out("\"\n");
+	}
 	pr_out("} }\n");
 
 	/*
